@@ -29,7 +29,7 @@ def generate(seed, num, depth=260):
         try:
             r = subprocess.run(["tlc", "-workers", "1", "-simulate", "num=%d" % num, "-depth", str(depth), "-seed",
                                 str(seed + 31 * ci), "-metadir", os.path.join(wd, "md%d" % ci), "-cleanup",
-                                "-noGenerateSpecTE", "-config", os.path.basename(cfg), "MCProcGen.tla"], cwd=SPEC,
+                                "-noGenerateSpecTE", "-config", os.path.basename(cfg), "MCProcGen.tla"], cwd=SPEC, env=dict(os.environ, JAVA_TOOL_OPTIONS="-Djava.io.tmpdir=" + wd),
                                stdout=subprocess.PIPE, stderr=subprocess.STDOUT, text=True, timeout=600)
         finally:
             os.unlink(cfg)
